@@ -77,8 +77,11 @@ def scale (a : Bounds α) (c : α) : Bounds α :=
   else if Arith.gt c zero then ⟨mul a.lower c, mul a.upper c⟩
   else ⟨mul a.upper c, mul a.lower c⟩
 
+/-- `div_by` (fix 6650688): the endpoints are divided; scaling by `1.0 / d` overflowed for a subnormal `d`. -/
 def divBy (a : Bounds α) (d : α) : Bounds α :=
-  if Arith.eq d zero then unbounded else a.scale (div one d)
+  if Arith.eq d zero then unbounded
+  else if Arith.gt d zero then ⟨div a.lower d, div a.upper d⟩
+  else ⟨div a.upper d, div a.lower d⟩
 
 def abs (a : Bounds α) : Bounds α :=
   if ge a.lower zero then a
@@ -162,12 +165,16 @@ def fromExp : Exp α → Option (AffineForm α)
   | .un .not _ => none
   | _ => none
 
+/-- `from_constraint`; since fix 48f25ce a form whose constant or some coefficient is not finite is rejected
+(an overflowed coefficient cannot be divided back: `1.0 / inf == 0.0` pinned the variable to `[0, 0]`). -/
 def fromConstraint (c : Constraint α) : Option (AffineForm α) :=
   match fromExp c.lhs with
   | none => none
   | some fl => match fromExp c.rhs with
     | none => none
-    | some fr => some (fl.merge fr (Arith.neg one))
+    | some fr =>
+      let f := fl.merge fr (Arith.neg one)
+      if !(isFinite f.constant) || f.coefficients.any (fun p => !(isFinite p.2)) then none else some f
 end AffineForm
 
 /-! ### `collect_variables` -/
@@ -327,7 +334,8 @@ def tightenConstraintExpression (c : Constraint α) (required : Bounds α) (s : 
   let current := lb.sub rb
   match current.intersection required s.an.tolerance with
   | none => ⟨s.an.markInfeasible, s.changed⟩
-  | some required =>
+  | some _ =>
+    -- fix 4e5bd4b: the reverse step uses the comparison's own interval, not its intersection with `lhs - rhs`
     tightenExpression c.rhs (lb.sub required) (tightenExpression c.lhs (required.add rb) s)
 
 /-- `suffixes[i]` for the term list starting at `i`: `t_i + (t_{i+1} + (… + [0,0]))`. -/
@@ -425,6 +433,26 @@ def propagate (an : Analyzer α) (cs : List (Constraint α)) (maxSteps : Nat) : 
 def analyze (domain : List (DomVar α)) (cs : List (Constraint α)) (tol : α) (maxSteps : Nat) : Analyzer α :=
   (fromDomain domain tol).propagate cs maxSteps
 
+/-- the `any` of `enforceable`: an `IntegerRange` variable whose inferred range holds no integer (after the
+tolerant rounding `apply_to_domain` uses). -/
+def emptyIntegerRange (an : Analyzer α) (domain : List (DomVar α)) : Bool :=
+  domain.any fun d =>
+    match d.ty with
+    | .int _ _ =>
+      match AList.get? an.variableBounds d.name with
+      | some b => Arith.gt (ceil (sub b.lower an.tolerance)) (floor (add b.upper an.tolerance))
+      | none => false
+    | _ => false
+
+/-- `enforceable` (fix cce0e38): when the analysis proved the model infeasible — a contradiction froze it, or
+an integer variable is left without an integral point — the inferred ranges are dropped (the declared
+domains are kept by `apply_to_domain`, so nothing would enforce them) and the declared ones are used. -/
+def enforceable (an : Analyzer α) (domain : List (DomVar α)) : Analyzer α :=
+  if an.detectedInfeasible || an.emptyIntegerRange domain then
+    { fromDomain domain an.tolerance with
+      detectedInfeasible := an.detectedInfeasible, reachedIterationLimit := an.reachedIterationLimit }
+  else an
+
 /-- the per-variable body of `apply_to_domain`. -/
 def applyToVar (an : Analyzer α) (d : DomVar α) : DomVar α :=
   match AList.get? an.variableBounds d.name with
@@ -460,6 +488,15 @@ def analyzeBounds {α : Type} [Arith α] (domain : List (DomVar α)) (cs : List 
   let an := Analyzer.analyze domain cs tol maxSteps
   { variables := domain.map fun d => (d.name, Analyzer.boundsOf an.variableBounds (.var d.name))
     expressions := exprs.map (Analyzer.boundsOf an.variableBounds)
+    domain := an.applyToDomain domain }
+
+/-- what `rooc::verif_hooks::linearizer_bounds` returns, given the constraints as `normalized_for_bounds`
+prepared them: `analyze(..).enforceable(&domain)`, then `apply_to_domain` — exactly what `Linearizer::linearize` uses. -/
+def linearizerBounds {α : Type} [Arith α] (domain : List (DomVar α)) (normalized : List (Constraint α))
+    (tol : α) (maxSteps : Nat) : BoundsReport α :=
+  let an := (Analyzer.analyze domain normalized tol maxSteps).enforceable domain
+  { variables := domain.map fun d => (d.name, Analyzer.boundsOf an.variableBounds (.var d.name))
+    expressions := []
     domain := an.applyToDomain domain }
 
 end Rooc
